@@ -2,6 +2,7 @@ import PystogVerif.Driver
 import PystogVerif.Model.Stog
 import PystogVerif.Model.Rebin
 import PystogVerif.Model.Writer
+import PystogVerif.Model.Workflow
 /-! Driver entry points of the hand-written models (Float reading) -/
 
 def flag (x : Float) : Bool := x != 0.0
@@ -38,4 +39,19 @@ def Model.dispatch (name : String) (a : Array Arg) : Except String (List (List F
         | some (s, n) => [if s then 1.0 else 0.0, Float.ofNat (n / 10^12), Float.ofNat (n % 10^12)]
         | Option.none => [-1.0, -1.0, -1.0]
       pure [rows.flatMap (fun r => enc r.1), rows.flatMap (fun r => enc r.2)]
+  | "Wf.run" => do
+      let rsf := (← Arg.getScalar a 0).toUInt64.toNat
+      let rho ← Arg.getScalar a 1
+      let bcoh ← Arg.getScalar a 2
+      let lowq := flag (← Arg.getScalar a 3)
+      let cutoff ← Arg.getScalar a 4
+      let dr ← Arg.getVec a 5
+      let s : Workflow.Settings Float := { rsf := rsf, rho := rho, bcoh := bcoh, lowq := lowq, cutoff := cutoff, dr := dr }
+      let st0 : Workflow.State Float := { sq := (← Arg.getVec a 6, ← Arg.getVec a 7) }
+      let ops := (← Arg.getVec a 8).map (fun c => match c.toUInt64.toNat with
+        | 0 => Workflow.Op.transform | 1 => Workflow.Op.filter | 2 => Workflow.Op.lorch | 3 => Workflow.Op.keenFq | _ => Workflow.Op.keenGr)
+      let st := Workflow.run s st0 ops
+      let enc : Option (Workflow.Curve Float) → List (List Float) := fun o => match o with
+        | some c => [[1.0], c.1, c.2] | Option.none => [[0.0], [], []]
+      pure ([st.sq.1, st.sq.2] ++ enc st.gr ++ enc st.ft ++ enc st.sqFt ++ enc st.grFt ++ enc st.grLorch ++ enc st.fqKeen ++ enc st.gkKeen)
   | _ => throw "unknown-entry"
